@@ -153,9 +153,9 @@ Fixpoint lrun (lax : bool) (fuel : nat) (s rout : list N) : option (list N) :=
   end.
 
 Definition spec_decode (s : list N) : option (list N) :=
-  match lrun false (S (length s)) s [] with Some rout => Some (rev rout) | None => None end.
+  match lrun false (S (length s)) s [] with Some rout => Some (frev rout) | None => None end.
 Definition spec_decode_lax (s : list N) : option (list N) :=
-  match lrun true (S (length s)) s [] with Some rout => Some (rev rout) | None => None end.
+  match lrun true (S (length s)) s [] with Some rout => Some (frev rout) | None => None end.
 
 (** structure-returning parser (used to evaluate [end_rules] on a compressor's output) *)
 Fixpoint lparse (fuel : nat) (s : list N) (acc : list seq) : option (list seq * list N) :=
@@ -333,11 +333,11 @@ Proof. intros H; inversion H; discriminate. Qed.
 
 Theorem spec_decode_complete s x : DenotesLz4 s x -> spec_decode s = Some x.
 Proof.
-  intros (qs & lits & (body & last & -> & Hqs & Hl) & Hx). unfold spec_decode, exec_block in *.
+  intros (qs & lits & (body & last & -> & Hqs & Hl) & Hx). unfold spec_decode, exec_block in *. rewrite ?frev_rev.
   destruct (exec_seqs qs []) as [rout|] eqn:E; [|discriminate]. injection Hx as <-.
   destruct (lrun_seqs_complete false _ _ Hqs last (S (length (body ++ last))) [] rout E) as (fuel' & Hf' & ->);
     [rewrite app_length; lia|eapply EncLast_nonempty; exact Hl|].
-  rewrite (lrun_last_complete false _ _ _ _ Hl); [reflexivity|lia].
+  rewrite (lrun_last_complete false _ _ _ _ Hl); [rewrite frev_rev; reflexivity|lia].
 Qed.
 
 (** invariant form of soundness: what [lrun] accepts from an intermediate state *)
@@ -379,7 +379,7 @@ Qed.
 Theorem spec_decode_sound s x : spec_decode s = Some x -> DenotesLz4 s x.
 Proof.
   unfold spec_decode. destruct (lrun false (S (length s)) s []) as [rout|] eqn:E; [|discriminate].
-  intros H; injection H as <-.
+  rewrite frev_rev. intros H; injection H as <-.
   destruct (lrun_sound _ _ _ _ _ E) as [(qs & lits & body & last & -> & Hqs & Hl & r & Hx & ->) | (C & _)];
     [|discriminate].
   exists qs, lits. split; [exists body, last; auto|]. unfold exec_block. rewrite Hx. reflexivity.
@@ -389,7 +389,7 @@ Theorem spec_decode_lax_sound s x :
   spec_decode_lax s = Some x -> DenotesLz4 s x \/ DenotesLz4Open s x.
 Proof.
   unfold spec_decode_lax. destruct (lrun true (S (length s)) s []) as [rout|] eqn:E; [|discriminate].
-  intros H; injection H as <-.
+  rewrite frev_rev. intros H; injection H as <-.
   destruct (lrun_sound _ _ _ _ _ E) as [(qs & lits & body & last & -> & Hqs & Hl & r & Hx & ->) | (_ & qs & Hqs & Hx)].
   - left. exists qs, lits. split; [exists body, last; auto|]. unfold exec_block. rewrite Hx. reflexivity.
   - right. exists qs. split; [exact Hqs|]. rewrite rev_involutive. exact Hx.
